@@ -219,5 +219,5 @@ def run(ctx, res):
 
 
 def replay(data):
-    print(C.json.dumps(data, indent=1)[:6000])
-    return 0
+    from .. import solver as _solver
+    return _solver.replay_violations(data)
